@@ -771,7 +771,7 @@ class CompositeEnvelopeContainer:
         """
         assert isinstance(other, CompositeEnvelopeContainer)
         self.states.extend(other.states)
-        self.envelopes.extend(other.envelopes)
+        self.envelopes.extend(e for e in other.envelopes if e not in self.envelopes)
 
     def remove_empty_product_states(self) -> None:
         """
@@ -843,7 +843,8 @@ class CompositeEnvelope:
             state_objs.extend(ce.state_objs)
             if ce_container is None:
                 ce_container = CompositeEnvelope._containers[ce.uid]
-            else:
+            elif CompositeEnvelope._containers[ce.uid] is not ce_container:
+                # Handles of the same composite envelope share one container
                 ce_container.append_states(CompositeEnvelope._containers[ce.uid])
             ce.uid = self.uid
         if ce_container is None:
